@@ -2,6 +2,9 @@
 //! Two families of byte strings: 8 small hand-picked payloads through every parameter combination, and the generated
 //! size x redundancy family (`Gen`: kind x length up to several MiB) that walks the decoders' expansion ratio from 1:1 up to
 //! the maximum the formats allow (deflate 1032:1, LZW above 1000:1), where output buffering / growth / limits matter.
+//! With a PNG predictor the reference encoder's choice of the filter type of each row (`Case::tags`) is a dimension of its
+//! own, independent of the value of /Predictor: PNG (and ISO 32000-1 7.4.4.4) let the tag byte in front of a row name the
+//! filter of that row whatever Predictor >= 10 says, so every (Predictor, tag sequence) pair is a legal encoding.
 #![allow(dead_code)]
 use crate::common::*;
 use crate::gen::*;
@@ -31,30 +34,56 @@ fn a85(data: &[u8], with_ws: bool, use_z: bool) -> Vec<u8> {
     out
 }
 fn paeth(a: u8, b: u8, c: u8) -> u8 { let (a1, b1, c1) = (a as i32, b as i32, c as i32); let p = a1 + b1 - c1; let (pa, pb, pc) = ((p - a1).abs(), (p - b1).abs(), (p - c1).abs()); if pa <= pb && pa <= pc { a } else if pb <= pc { b } else { c } }
-/// PNG prediction (encoder side), one filter type per row chosen by `pick`
-fn png_predict(data: &[u8], bpp: usize, row: usize, pick: impl Fn(usize) -> u8) -> Vec<u8> {
-    let mut out = vec![];
+/// PNG filtering of one row (encoder side, PNG 1.2 chapter 6): `out` receives cur - prediction(filter type f)
+fn png_filter_row(f: u8, cur: &[u8], prev: &[u8], bpp: usize, out: &mut Vec<u8>) {
+    for i in 0..cur.len() {
+        let a = if i >= bpp { cur[i - bpp] } else { 0 };
+        let b = prev[i];
+        let c = if i >= bpp { prev[i - bpp] } else { 0 };
+        let pred = match f { 0 => 0, 1 => a, 2 => b, 3 => ((a as u16 + b as u16) / 2) as u8, _ => paeth(a, b, c) };
+        out.push(cur[i].wrapping_sub(pred));
+    }
+}
+/// PNG prediction (encoder side), one filter type per row chosen by `pick` (row index, row, previous row)
+fn png_predict(data: &[u8], bpp: usize, row: usize, pick: impl Fn(usize, &[u8], &[u8]) -> u8) -> Vec<u8> {
+    let mut out = Vec::with_capacity(data.len() + data.len() / row.max(1) + 1);
     let mut prev = vec![0u8; row];
     for (r, cur) in data.chunks(row).enumerate() {
-        let f = pick(r);
+        let f = pick(r, cur, &prev);
         out.push(f);
-        for i in 0..cur.len() {
-            let a = if i >= bpp { cur[i - bpp] } else { 0 };
-            let b = prev[i];
-            let c = if i >= bpp { prev[i - bpp] } else { 0 };
-            let pred = match f { 0 => 0, 1 => a, 2 => b, 3 => ((a as u16 + b as u16) / 2) as u8, _ => paeth(a, b, c) };
-            out.push(cur[i].wrapping_sub(pred));
-        }
+        png_filter_row(f, cur, &prev, bpp, &mut out);
         prev = cur.to_vec();
         prev.resize(row, 0);
     }
     out
 }
+/// The filter type a reference encoder with row-filter policy `tags` gives row `r` when the stream says /Predictor `predictor`:
+///   ""        the type the Predictor value hints at: Predictor-10 on every row, and r mod 5 for Predictor 15 ("optimum")
+///   digits    an explicit sequence over 0..4, used cyclically: "2" = Up on every row, "12340" = a rotation of all five
+///   "minsum"  the heuristic PNG 1.2 (9.6) recommends and most encoders use: per row, the type whose filtered row has
+///             the smallest sum of absolute values (bytes read as signed); ties go to the lower type
+/// Every policy is legal under every Predictor 10..15: the tag byte of the row governs, the Predictor value is a hint.
+fn row_tag(tags: &str, predictor: i64, bpp: usize, r: usize, cur: &[u8], prev: &[u8]) -> u8 {
+    match tags {
+        "" => if predictor == 15 { (r % 5) as u8 } else { (predictor - 10) as u8 },
+        "minsum" => {
+            let mut best = (u64::MAX, 0u8);
+            let mut buf = Vec::with_capacity(cur.len());
+            for f in 0..5u8 { buf.clear(); png_filter_row(f, cur, prev, bpp, &mut buf); let sum: u64 = buf.iter().map(|&x| (x as i8).unsigned_abs() as u64).sum(); if sum < best.0 { best = (sum, f); } }
+            best.1
+        }
+        seq => { let b = seq.as_bytes(); (b[r % b.len()] - b'0').min(4) }
+    }
+}
+fn tags_describe(tags: &str) -> String { match tags { "" => "the type Predictor hints at (Predictor-10; r mod 5 for 15)".into(), "minsum" => "chosen per row by PNG's minimum-sum-of-absolute-differences heuristic".into(), seq => format!("the sequence {} (cyclic)", seq) } }
+const FILTER_NAMES: [&str; 5] = ["None", "Sub", "Up", "Average", "Paeth"];
 
 #[derive(Clone, Debug)]
 pub struct Case { pub data: Vec<u8>, pub chain: Vec<u8>, pub predictor: i64, pub colors: usize, pub bits: usize, pub columns: usize, pub early: i64, pub parms_array: bool, pub a85_ws: bool,
     /// level of the reference deflate encoder (0 = stored blocks .. 9 = best): different legal encodings of the same bytes
     pub level: u32,
+    /// the reference PNG encoder's row-filter policy (see `row_tag`); "" = the type the Predictor value hints at
+    pub tags: String,
     /// how `data` was generated, when it is a member of the size x redundancy family (so that a multi-megabyte input replays from three numbers)
     pub gen: Option<Gen> }
 
@@ -118,7 +147,7 @@ pub fn build(c: &Case) -> Stream {
             b'F' | b'L' => {
                 let mut d = Dictionary::new();
                 if innermost && c.predictor >= 10 {
-                    cur = png_predict(&cur, bpp, row, |r| if c.predictor == 15 { (r % 5) as u8 } else { (c.predictor - 10) as u8 });
+                    cur = png_predict(&cur, bpp, row, |r, cu, pv| row_tag(&c.tags, c.predictor, bpp, r, cu, pv));
                     d.set("Predictor", c.predictor); d.set("Columns", c.columns as i64); if c.colors != 1 { d.set("Colors", c.colors as i64); } if c.bits != 8 { d.set("BitsPerComponent", c.bits as i64); }
                 }
                 if *f == b'L' { if c.early == 0 { d.set("EarlyChange", 0i64); } cur = lzw(&cur, c.early != 0); names.push(b"LZWDecode".to_vec()); } else { cur = zlib(&cur, c.level); names.push(b"FlateDecode".to_vec()); }
@@ -144,9 +173,34 @@ pub fn check_len(c: &Case) -> (usize, Result<(), (String, String)>) {
     let st = build(c);
     (st.content.len(), match guarded(std::panic::AssertUnwindSafe(|| st.decompressed_content())) {
         Err(p) => Err(("no-panic".into(), p)),
-        Ok(Err(e)) => Err(("decodes".into(), format!("{:?}: {}", st.dict, e))),
-        Ok(Ok(d)) => if d == c.data { Ok(()) } else { Err(("decode-equals-reference".into(), format!("{}dict {:?}: decoded {} bytes {:02x?}.., expected {} bytes {:02x?}..{}", c.gen.as_ref().map(|g| format!("payload {}, ", g.describe())).unwrap_or_default(), st.dict, d.len(), &d[..d.len().min(12)], c.data.len(), &c.data[..c.data.len().min(12)], differ(&d, &c.data, st.content.len())))) },
+        Ok(Err(e)) => Err(("decodes".into(), format!("{}{:?}: {}", rows_note(c, None), st.dict, e))),
+        Ok(Ok(d)) => if d == c.data { Ok(()) } else {
+            // a frame whose row tags are not the ones the Predictor value hints at gets an obligation of its own: by PNG
+            // and ISO 32000-1 7.4.4.4 the tag byte in front of a row names the filter of that row under every Predictor >= 10
+            let obl = if c.predictor >= 10 && !c.tags.is_empty() { "row-tag-governs-under-every-png-predictor" } else { "decode-equals-reference" };
+            Err((obl.into(), format!("{}{}dict {:?}: decoded {} bytes {:02x?}.., expected {} bytes {:02x?}..{}", c.gen.as_ref().map(|g| format!("payload {}, ", g.describe())).unwrap_or_default(), rows_note(c, Some(&d)), st.dict, d.len(), &d[..d.len().min(12)], c.data.len(), &c.data[..c.data.len().min(12)], differ(&d, &c.data, st.content.len()))))
+        },
     })
+}
+
+/// for a predictor case: which filter types the reference encoder put in front of the rows, and (given the decoded bytes)
+/// the first row that came back wrong together with the tag it carries
+fn rows_note(c: &Case, got: Option<&[u8]>) -> String {
+    if c.predictor < 10 { return String::new(); }
+    let bpp = (c.colors * c.bits / 8).max(1);
+    let row = bpp * c.columns;
+    let mut tags: Vec<u8> = vec![];
+    let mut prev = vec![0u8; row];
+    for (r, cur) in c.data.chunks(row).enumerate() { tags.push(row_tag(&c.tags, c.predictor, bpp, r, cur, &prev)); prev = cur.to_vec(); prev.resize(row, 0); }
+    let shown: String = tags.iter().take(16).map(|t| (b'0' + t) as char).collect();
+    let mut s = format!("{} rows of {} bytes under /Predictor {}, row filter tags {}: {}{}; ", tags.len(), row, c.predictor, tags_describe(&c.tags), shown, if tags.len() > 16 { ".." } else { "" });
+    if let Some(d) = got {
+        let at = d.iter().zip(c.data.iter()).position(|(a, b)| a != b).unwrap_or(d.len().min(c.data.len()));
+        if let Some(&t) = tags.get(at / row.max(1)) {
+            s += &format!("the first wrong row is row {}, which carries tag {} ({}){}; ", at / row, t, FILTER_NAMES[t as usize], if c.predictor < 15 && t as i64 != c.predictor - 10 { format!(" while Predictor-10 = {} ({}): the tag of the row governs", c.predictor - 10, FILTER_NAMES[(c.predictor - 10) as usize]) } else { String::new() });
+        }
+    }
+    s
 }
 
 /// where two byte strings first differ, and the expansion of the encoded stream (for the failure text)
@@ -179,31 +233,52 @@ pub fn check_recompress(c: &Case) -> Result<(), (String, String)> {
     if st.decompress().is_err() { return Ok(()); }
     st.compress().map_err(|e| ("compress".to_string(), e.to_string()))?;
     let back = if st.dict.has(b"Filter") { st.decompressed_content().map_err(|e| ("recompress-decodes".to_string(), format!("{:?}: {}", st.dict, e)))? } else { st.content.clone() };
-    if back != c.data { return Err(("recompress-decodes".into(), format!("{}after decompress + compress the stream {:?} decodes to different bytes: {} bytes instead of {}{}", c.gen.as_ref().map(|g| format!("payload {}, ", g.describe())).unwrap_or_default(), st.dict, back.len(), c.data.len(), differ(&back, &c.data, st.content.len())))); }
+    if back != c.data { return Err(("recompress-decodes".into(), format!("{}{}after decompress + compress the stream {:?} decodes to different bytes: {} bytes instead of {}{}", c.gen.as_ref().map(|g| format!("payload {}, ", g.describe())).unwrap_or_default(), rows_note(c, Some(&back)), st.dict, back.len(), c.data.len(), differ(&back, &c.data, st.content.len())))); }
     Ok(())
 }
 
-fn case_json(c: &Case) -> Value { json!({"data": if c.gen.is_some() { String::new() } else { hex(&c.data) }, "gen": c.gen.as_ref().map(|g| g.json()), "level": c.level, "chain": String::from_utf8_lossy(&c.chain), "predictor": c.predictor, "colors": c.colors, "bits": c.bits, "columns": c.columns, "early": c.early, "parms_array": c.parms_array, "a85_ws": c.a85_ws}) }
-fn case_from(v: &Value) -> Case { let gen = Gen::from(&v["gen"]); Case { data: match &gen { Some(g) => g.data(), None => unhex(v["data"].as_str().unwrap_or("")) }, gen, level: v["level"].as_u64().unwrap_or(6) as u32, chain: v["chain"].as_str().unwrap_or("F").as_bytes().to_vec(), predictor: v["predictor"].as_i64().unwrap_or(1), colors: v["colors"].as_u64().unwrap_or(1) as usize, bits: v["bits"].as_u64().unwrap_or(8) as usize, columns: v["columns"].as_u64().unwrap_or(1) as usize, early: v["early"].as_i64().unwrap_or(1), parms_array: v["parms_array"].as_bool().unwrap_or(false), a85_ws: v["a85_ws"].as_bool().unwrap_or(false) } }
+fn case_json(c: &Case) -> Value { json!({"data": if c.gen.is_some() { String::new() } else { hex(&c.data) }, "gen": c.gen.as_ref().map(|g| g.json()), "level": c.level, "tags": c.tags, "chain": String::from_utf8_lossy(&c.chain), "predictor": c.predictor, "colors": c.colors, "bits": c.bits, "columns": c.columns, "early": c.early, "parms_array": c.parms_array, "a85_ws": c.a85_ws}) }
+fn case_from(v: &Value) -> Case { let gen = Gen::from(&v["gen"]); Case { data: match &gen { Some(g) => g.data(), None => unhex(v["data"].as_str().unwrap_or("")) }, gen, level: v["level"].as_u64().unwrap_or(6) as u32, tags: v["tags"].as_str().unwrap_or("").to_string(), chain: v["chain"].as_str().unwrap_or("F").as_bytes().to_vec(), predictor: v["predictor"].as_i64().unwrap_or(1), colors: v["colors"].as_u64().unwrap_or(1) as usize, bits: v["bits"].as_u64().unwrap_or(8) as usize, columns: v["columns"].as_u64().unwrap_or(1) as usize, early: v["early"].as_i64().unwrap_or(1), parms_array: v["parms_array"].as_bool().unwrap_or(false), a85_ws: v["a85_ws"].as_bool().unwrap_or(false) } }
 
 pub fn run(thorough: bool) -> Report {
-    let small = "8 small payloads x all filter chains of length 1..3 over {Flate, LZW, ASCII85} x predictor {1,10..15} x (Colors,BitsPerComponent) in {(1,8),(3,8),(1,16),(4,8)} x Columns {1,2,4} x EarlyChange {0,1} x DecodeParms as dictionary / parallel array x ASCII85 white-space; plus every ASCII85 final partial group for lengths 0..16";
+    let small = "8 small payloads x all filter chains of length 1..3 over {Flate, LZW, ASCII85} x predictor {1,10..15} x (Colors,BitsPerComponent) in {(1,8),(3,8),(1,16),(4,8)} x Columns {1,2,4} x EarlyChange {0,1} x DecodeParms as dictionary / parallel array x ASCII85 white-space x (for Predictor 10..15, independently of its value) the filter type the reference PNG encoder tags each row with: {Predictor-10 on every row (r mod 5 for 15), each fixed type 0..4, the five rotations of 0,1,2,3,4 over the rows, PNG's minimum-sum-of-absolute-differences choice per row}".to_string() + if thorough { " (all twelve on chains of one and two filters; the hinted type, the heuristic and the rotation 3,4,0,1,2 on chains of three)" } else { " (all twelve on the single-filter chains; the hinted type, the heuristic and the rotation 3,4,0,1,2 on chains of two filters; the hinted type on chains of three)" } + "; plus every ASCII85 final partial group for lengths 0..16";
+    let seqs = if thorough { "plus every sequence of row filter types in {None,Sub,Up,Average,Paeth}^n for frames of n = 1..5 pseudo-random rows (3905 sequences, 2 seeds) x every Predictor 10..15 x (Colors,BitsPerComponent,Columns) in {(1,8,3),(3,8,2),(1,16,2)} x {FlateDecode, LZWDecode}" } else { "plus every sequence of row filter types in {None,Sub,Up,Average,Paeth}^n for frames of n = 1..3 pseudo-random rows (155 sequences) x every Predictor 10..15 x (Colors,BitsPerComponent,Columns) in {(1,8,3),(3,8,2),(1,16,2)} x {FlateDecode, LZWDecode}" };
     let family = if thorough {
-        "plus the size x redundancy family of byte strings: kind {const (one byte value p in {0,255}), period (p in {3,1000}), runs (of length p in {4096,300}), sparse (zeros, one non-zero byte every p in {512,40000}), text (pseudo-random over 16 symbols, 2 seeds), noise (pseudo-random bytes, 2 seeds)} x length {2^k for k=10..23, 3*2^(k-1) for k=10..22} (up to 8 MiB; FlateDecode expansion from 1:1 = stored blocks up to ~1028:1 of deflate's maximum 1032:1, LZWDecode up to ~1265:1; the exact figures are in the first sample) x all filter chains of length 1..2 x (Predictor,Colors,BitsPerComponent,Columns) in {none,(12,1,8,1024),(15,4,8,64),(11,1,16,2048),(14,3,8,512)} x level of the reference deflate encoder {0,1,6,9} x EarlyChange {0,1}; every payload of the family also through compress() / decompressed_content() / decompress() (lossless, never longer, Length)"
+        "plus the size x redundancy family of byte strings: kind {const (one byte value p in {0,255}), period (p in {3,1000}), runs (of length p in {4096,300}), sparse (zeros, one non-zero byte every p in {512,40000}), text (pseudo-random over 16 symbols, 2 seeds), noise (pseudo-random bytes, 2 seeds)} x length {2^k for k=10..23, 3*2^(k-1) for k=10..22} (up to 8 MiB; FlateDecode expansion from 1:1 = stored blocks up to ~1028:1 of deflate's maximum 1032:1, LZWDecode up to ~1265:1; the exact figures are in the first sample) x all filter chains of length 1..2 x (Predictor,Colors,BitsPerComponent,Columns) in {none,(12,1,8,1024),(15,4,8,64),(11,1,16,2048),(14,3,8,512)} x level of the reference deflate encoder {0,1,6,9} x EarlyChange {0,1}, and on the single-filter chains each predictor geometry also with row filter types chosen by PNG's minimum-sum heuristic and by the rotation 3,4,0,1,2 (frames of up to 2^15 rows); every payload of the family also through compress() / decompressed_content() / decompress() (lossless, never longer, Length)"
     } else {
-        "plus the size x redundancy family of byte strings: kind {const (byte value 0), period 3, runs of length 4096, sparse (zeros, one non-zero byte every 512), text (pseudo-random over 16 symbols), noise (pseudo-random bytes)} x length {2^10, 2^13, 2^16, 2^18, 2^20, 2^21, 2^22} (up to 4 MiB; FlateDecode expansion from 1:1 = stored blocks up to ~1026:1 of deflate's maximum 1032:1, LZWDecode up to ~1050:1; the exact figures are in the first sample) x all filter chains of length 1..2 x (Predictor,Colors,BitsPerComponent,Columns) in {none,(12,1,8,1024),(15,4,8,64)} x level of the reference deflate encoder {6,9} x EarlyChange {1; 0 for single-filter chains}; every payload of the family also through compress() / decompressed_content() / decompress() (lossless, never longer, Length)"
+        "plus the size x redundancy family of byte strings: kind {const (byte value 0), period 3, runs of length 4096, sparse (zeros, one non-zero byte every 512), text (pseudo-random over 16 symbols), noise (pseudo-random bytes)} x length {2^10, 2^13, 2^16, 2^18, 2^20, 2^21, 2^22} (up to 4 MiB; FlateDecode expansion from 1:1 = stored blocks up to ~1026:1 of deflate's maximum 1032:1, LZWDecode up to ~1050:1; the exact figures are in the first sample) x all filter chains of length 1..2 x (Predictor,Colors,BitsPerComponent,Columns) in {none,(12,1,8,1024),(15,4,8,64)} x level of the reference deflate encoder {6,9} x EarlyChange {1; 0 for single-filter chains}, and on the single-filter chains each predictor geometry also with row filter types chosen by PNG's minimum-sum heuristic and by the rotation 3,4,0,1,2 (frames of up to 2^14 rows); every payload of the family also through compress() / decompressed_content() / decompress() (lossless, never longer, Length)"
     };
-    let mut rep = Report::new(&format!("{}; {}", small, family), true);
+    let mut rep = Report::new(&format!("{}; {}; {}", small, seqs, family), true);
     let mut chains: Vec<Vec<u8>> = vec![];
     for a in b"FLA" { chains.push(vec![*a]); for b in b"FLA" { chains.push(vec![*a, *b]); for c in b"FLA" { chains.push(vec![*a, *b, *c]); } } }
     let mut cases: Vec<Case> = vec![];
+    // the reference PNG encoder's row-filter policies (see `row_tag`): the hinted type, each fixed type, the five rotations of 0,1,2,3,4, PNG's heuristic
+    let policies: Vec<&str> = vec!["", "0", "1", "2", "3", "4", "01234", "12340", "23401", "34012", "40123", "minsum"];
+    let hinted = |predictor: i64| -> String { if predictor == 15 { "01234".into() } else { (predictor - 10).to_string() } };
     for data in payloads() { for chain in &chains { for predictor in [1i64, 10, 11, 12, 13, 14, 15] { for (colors, bits) in [(1usize, 8usize), (3, 8), (1, 16), (4, 8)] { for columns in [1usize, 2, 4] { for early in [0i64, 1] { for parms_array in [false, true] {
         let last = *chain.last().unwrap();
         if predictor >= 10 && last == b'A' { continue; }
         if predictor == 1 && (colors != 1 || columns != 1) { continue; }
         if early == 0 && !chain.contains(&b'L') { continue; }
-        cases.push(Case { data: data.clone(), chain: chain.clone(), predictor, colors, bits, columns, early, parms_array, a85_ws: columns == 2, level: 6, gen: None });
+        for tags in &policies {
+            if tags.is_empty() { cases.push(Case { data: data.clone(), chain: chain.clone(), predictor, colors, bits, columns, early, parms_array, a85_ws: columns == 2, level: 6, tags: String::new(), gen: None }); continue; }
+            // the other row-filter policies: only with a PNG predictor, only when they differ from the hinted one, and only on whole rows
+            if predictor < 10 || *tags == hinted(predictor) || data.is_empty() || data.len() % ((colors * bits / 8) * columns) != 0 { continue; }
+            // all policies on the single-filter chains (thorough: and on the chains of two filters); the heuristic and one rotation on
+            // the chains of two filters (thorough: of three filters)
+            if chain.len() > (if thorough { 2 } else { 1 }) && (chain.len() > (if thorough { 3 } else { 2 }) || !["minsum", "34012"].contains(tags)) { continue; }
+            cases.push(Case { data: data.clone(), chain: chain.clone(), predictor, colors, bits, columns, early, parms_array, a85_ws: columns == 2, level: 6, tags: tags.to_string(), gen: None });
+        }
     } } } } } } }
+    // ---- every sequence of row filter types: {0..4}^n for frames of n rows x every Predictor 10..15 x geometry x {Flate, LZW},
+    // on pseudo-random rows (so that any two filter types reconstruct a row differently)
+    for n in 1..=(if thorough { 5usize } else { 3 }) { for seq in 0..5usize.pow(n as u32) {
+        let tags: String = (0..n).map(|r| (b'0' + (seq / 5usize.pow(r as u32) % 5) as u8) as char).collect();
+        for predictor in 10i64..=15 { for (colors, bits, columns) in [(1usize, 8usize, 3usize), (3, 8, 2), (1, 16, 2)] { for f in [b'F', b'L'] { for seed in if thorough { vec![1usize, 2] } else { vec![1] } {
+            let g = Gen { kind: "noise".into(), len: n * (colors * bits / 8) * columns, p: seed + 2 * n };
+            cases.push(Case { data: g.data(), chain: vec![f], predictor, colors, bits, columns, early: 1, parms_array: seq % 2 == 1, a85_ws: false, level: 6, tags: tags.clone(), gen: Some(g) });
+        } } } }
+    } }
     use rayon::prelude::*;
     let results: Vec<(usize, Vec<(String, String, Value)>)> = cases.par_iter().enumerate().map(|(i, c)| {
         let mut f = vec![];
@@ -212,24 +287,29 @@ pub fn run(thorough: bool) -> Report {
         (i, f)
     }).collect();
     for (i, f) in results { rep.case(!cases[i].data.is_empty()); for (o, d, inp) in f { rep.fail(&o, d.clone(), inp, d); } }
-    for n in 0..=16usize { let data: Vec<u8> = (0..n as u8).map(|i| i.wrapping_mul(67).wrapping_add(200)).collect(); let c = Case { data, chain: vec![b'A'], predictor: 1, colors: 1, bits: 8, columns: 1, early: 1, parms_array: false, a85_ws: n % 2 == 0, level: 6, gen: None }; rep.case(true); if let Err((o, d)) = check(&c) { rep.fail(&o, d.clone(), case_json(&c), d); } }
+    for n in 0..=16usize { let data: Vec<u8> = (0..n as u8).map(|i| i.wrapping_mul(67).wrapping_add(200)).collect(); let c = Case { data, chain: vec![b'A'], predictor: 1, colors: 1, bits: 8, columns: 1, early: 1, parms_array: false, a85_ws: n % 2 == 0, level: 6, tags: String::new(), gen: None }; rep.case(true); if let Err((o, d)) = check(&c) { rep.fail(&o, d.clone(), case_json(&c), d); } }
     for data in payloads() { rep.case(true); if let Err((o, d)) = check_compress(&data) { rep.fail(&o, d.clone(), json!({"compress": hex(&data)}), d); } }
     let big: Vec<u8> = (0..5000u32).map(|i| (i % 7) as u8).collect();
     if let Err((o, d)) = check_compress(&big) { rep.fail(&o, d.clone(), json!({"compress": hex(&big)}), d); }
     // ---- the size x redundancy family (see `Gen`): every generated payload through every chain of length 1..2, with and
     // without a PNG predictor of realistic row width, at several levels of the reference deflate encoder, and through compress()
     #[derive(Clone)]
-    struct Big { g: Gen, chain: Vec<u8>, predictor: i64, colors: usize, bits: usize, columns: usize, early: i64, level: u32, compress: bool }
+    struct Big { g: Gen, chain: Vec<u8>, predictor: i64, colors: usize, bits: usize, columns: usize, early: i64, level: u32, compress: bool, tags: &'static str }
     let geoms: Vec<(i64, usize, usize, usize)> = if thorough { vec![(1, 1, 8, 1), (12, 1, 8, 1024), (15, 4, 8, 64), (11, 1, 16, 2048), (14, 3, 8, 512)] } else { vec![(1, 1, 8, 1), (12, 1, 8, 1024), (15, 4, 8, 64)] };
     let levels: Vec<u32> = if thorough { vec![0, 1, 6, 9] } else { vec![6, 9] };
     let mut bigs: Vec<Big> = vec![];
     for g in gens(thorough) {
-        bigs.push(Big { g: g.clone(), chain: vec![], predictor: 1, colors: 1, bits: 8, columns: 1, early: 1, level: 9, compress: true });
+        bigs.push(Big { g: g.clone(), chain: vec![], predictor: 1, colors: 1, bits: 8, columns: 1, early: 1, level: 9, compress: true, tags: "" });
         for chain in chains.iter().filter(|c| c.len() <= 2) { for &(predictor, colors, bits, columns) in &geoms { for &level in &levels { for early in [1i64, 0] {
             if predictor >= 10 && (*chain.last().unwrap() == b'A' || g.len % ((colors * bits / 8) * columns) != 0) { continue; }
             if level != levels[0] && !chain.contains(&b'F') { continue; }
             if early == 0 && (!chain.contains(&b'L') || (!thorough && chain.len() > 1)) { continue; }
-            bigs.push(Big { g: g.clone(), chain: chain.clone(), predictor, colors, bits, columns, early, level, compress: false });
+            bigs.push(Big { g: g.clone(), chain: chain.clone(), predictor, colors, bits, columns, early, level, compress: false, tags: "" });
+            // long frames (up to 2^17 rows) whose row filter types are not the hinted ones: the heuristic choice and a rotation, under the
+            // Predictor values of the geometries; once per geometry, on the single-filter chains
+            if predictor >= 10 && chain.len() == 1 && level == levels[0] && early == 1 { for tags in ["minsum", "34012"] {
+                bigs.push(Big { g: g.clone(), chain: chain.clone(), predictor, colors, bits, columns, early, level, compress: false, tags });
+            } }
         } } } }
     }
     bigs.sort_by(|a, b| b.g.len.cmp(&a.g.len)); // longest first, so that the parallel schedule has no long tail
@@ -238,7 +318,7 @@ pub fn run(thorough: bool) -> Report {
         let data = b.g.data();
         let mut f = vec![];
         if b.compress { if let Err((o, d)) = check_compress(&data) { f.push((o, format!("payload {}: {}", b.g.describe(), d), json!({"compress_gen": b.g.json()}))); } return (f, 0); }
-        let c = Case { data, chain: b.chain.clone(), predictor: b.predictor, colors: b.colors, bits: b.bits, columns: b.columns, early: b.early, parms_array: false, a85_ws: b.g.len.trailing_zeros() % 2 == 0, level: b.level, gen: Some(b.g.clone()) };
+        let c = Case { data, chain: b.chain.clone(), predictor: b.predictor, colors: b.colors, bits: b.bits, columns: b.columns, early: b.early, parms_array: false, a85_ws: b.g.len.trailing_zeros() % 2 == 0, level: b.level, tags: b.tags.to_string(), gen: Some(b.g.clone()) };
         let (enc, r) = check_len(&c);
         if let Err((o, d)) = r { f.push((o, d, case_json(&c))); }
         if c.chain.len() == 1 && c.predictor >= 10 { if let Err((o, d)) = check_recompress(&c) { f.push((o, d, json!({"recompress": case_json(&c)}))); } }
@@ -256,6 +336,7 @@ pub fn run(thorough: bool) -> Report {
     }
     rep.sample(format!("expansion ratios reached by the size x redundancy family: FlateDecode from {:.3}:1 up to {} (the format's maximum is 1032:1); LZWDecode up to {}", min_f, max_f.1, max_l.1));
     rep.sample("payload 0..=255, chain [ASCII85Decode FlateDecode], Predictor 15, Colors 3, Columns 4, DecodeParms [null <<...>>]".into());
+    rep.sample("payload 0..=255, chain [FlateDecode], Predictor 12 (Up), Columns 4, rows tagged 3,4,0,1,2,3,.. (Average, Paeth, None, Sub, Up): the tag byte of each row governs".into());
     rep
 }
 
